@@ -11,4 +11,5 @@ MODULES = {
     'Reserve': 'reserve',
     'MatcherCap': 'matcher',
     'BrokerProg': 'broker',
+    'Listeners': 'listeners',
 }
